@@ -60,6 +60,7 @@ def _declared():
         (measuring_body, ("k",), ()),
         (cirq.measure_single_paulistring(cirq.X(a) * cirq.Z(b), key="m"), ("m",), ()),
     ]
+    table += [(g.on(q_), mk, ()) for g, q_, mk in _custom_recorders(a, b, c)]
     if hasattr(cirq, "If"):
         table += [
             (cirq.If("k", cirq.X(c)), (), ("k",)),
@@ -68,6 +69,55 @@ def _declared():
             (cirq.If("m", cirq.X(a), cirq.Z(b).with_classical_controls("k")), (), ("k", "m")),       # a multi-operation body with a nested control
         ]
     return {op: (frozenset(cirq.MeasurementKey(k) for k in mk), frozenset(cirq.MeasurementKey(k) for k in ck)) for op, mk, ck in table}
+
+
+def _custom_recorders(a, b, c):
+    """user-defined gates that declare the keys they record through each of the protocol's alternative methods (string / object, one / several)"""
+    import cirq
+
+    global _RECORDERS
+    if _RECORDERS is None:
+        class _Rec(cirq.Gate):
+            def __init__(self, label):
+                self.label = label
+
+            def _num_qubits_(self):
+                return 1
+
+            def _is_measurement_(self):
+                return True
+
+            def __eq__(self, other):
+                return type(other) is type(self) and other.label == self.label
+
+            def __hash__(self):
+                return hash((type(self).__name__, self.label))
+
+            def __repr__(self):
+                return f"{type(self).__name__}({self.label!r})"
+
+        class NamesRecorder(_Rec):
+            def _measurement_key_names_(self):
+                return frozenset(["k", "m"])
+
+        class NameRecorder(_Rec):
+            def _measurement_key_name_(self):
+                return "m"
+
+        class ObjRecorder(_Rec):
+            def _measurement_key_obj_(self):
+                return cirq.MeasurementKey("k")
+
+        class ObjsRecorder(_Rec):
+            def _measurement_key_objs_(self):
+                return frozenset([cirq.MeasurementKey("k"), cirq.MeasurementKey("m")])
+
+        _RECORDERS = (NamesRecorder("names"), NameRecorder("name"), ObjRecorder("obj"), ObjsRecorder("objs"))
+    n_, n1, o1, o_ = _RECORDERS
+    return [(n_, a, ("k", "m")), (n1, b, ("m",)), (o1, c, ("k",)), (o_, b, ("k", "m"))]
+
+
+_RECORDERS = None
 
 
 def _alphabet():
